@@ -32,21 +32,21 @@ impl Drop for Child { fn drop(&mut self) { if self.registered { bad(5); } } }
 /// `dirty` = a re-registration is owed (the wrapper returned Reregister, or remove()/replace()
 /// was called: "a re-registration is requested after each change").  While one is owed the only
 /// parent calls are reregister or unregister, as the loop would do.
-macro_rules! ts_step { ($ts:ident, $poll:ident, $fac:ident, $tok:ident, $parent:ident, $dirty:ident, $next_id:ident, $cur:ident, $second_change:ident) => {{
+macro_rules! ts_step { ($ts:ident, $poll:ident, $fac:ident, $tok:ident, $parent:ident, $dirty:ident, $next_id:ident, $cur:ident, $second_change:ident, $disabled:ident) => {{
     let op: u8 = kani::any();
     if $dirty && op >= 200 && !$second_change {
         // a second change during the same processing (the documented "may be called at any time
         // during processing"): e.g. the child just asked for Remove/Disable and the parent replaces
         // or removes it before returning Reregister -- still ONE owed re-registration
         $second_change = true;
-        if op & 1 == 0 { $ts.remove(); $cur = 0; }
-        else if $next_id < 4 { let was_none = $ts.is_none(); $ts.replace(Child { id: $next_id, registered: false, ret: PostAction::Continue }); $cur = if was_none { 0 } else { $next_id }; $next_id += 1; }
+        if op & 1 == 0 { $ts.remove(); $cur = 0; $disabled = false; }
+        else if $next_id < 4 { let was_none = $ts.is_none(); $ts.replace(Child { id: $next_id, registered: false, ret: PostAction::Continue }); $cur = if was_none { 0 } else { $next_id }; $next_id += 1; if !was_none { $disabled = false; } }
     } else if $dirty {
         $second_change = false;
         // the loop applies the owed re-registration (or the user disables/removes the parent)
         if op & 1 == 0 {
             if $parent { assert!(v_ok!($ts.reregister(&mut $poll, &mut $fac)), "C18.tr.reregister_ok"); }
-            else { assert!(v_ok!($ts.register(&mut $poll, &mut $fac)), "C18.tr.register_ok"); $parent = true; }
+            else { assert!(v_ok!($ts.register(&mut $poll, &mut $fac)), "C18.tr.register_ok"); $parent = true; $disabled = false; }
             $dirty = false;
         } else if $parent {
             assert!(v_ok!($ts.unregister(&mut $poll)), "C18.tr.unregister_ok"); $parent = false;
@@ -66,15 +66,15 @@ macro_rules! ts_step { ($ts:ident, $poll:ident, $fac:ident, $tok:ident, $parent:
                 Err(_) => assert!(false, "C18.tr.process_ok"),
             }
             std::mem::forget(r);
-            if from != 0 { assert!(from == $cur, "C18.tr.events_only_from_current_child"); if ret == PostAction::Remove { $cur = 0; } }
+            if from != 0 { assert!(from == $cur, "C18.tr.events_only_from_current_child"); if ret == PostAction::Remove { $cur = 0; } if ret == PostAction::Disable { $disabled = true; } }
         }
     } else if op == 1 {
-        $ts.remove(); $cur = 0; $dirty = true;
+        $ts.remove(); $cur = 0; $dirty = true; $disabled = false;
     } else if op == 2 {
-        if $next_id < 4 { $ts.replace(Child { id: $next_id, registered: false, ret: PostAction::Continue }); if $cur != 0 || !$ts.is_none() { $cur = if $ts.is_none() { 0 } else { $next_id }; } $next_id += 1; $dirty = true; }
+        if $next_id < 4 { let was_none = $ts.is_none(); $ts.replace(Child { id: $next_id, registered: false, ret: PostAction::Continue }); if $cur != 0 || !$ts.is_none() { $cur = if $ts.is_none() { 0 } else { $next_id }; } $next_id += 1; $dirty = true; if !was_none { $disabled = false; } }
     } else if op == 3 {
         if $parent { assert!(v_ok!($ts.unregister(&mut $poll)), "C18.tr.unregister_ok"); $parent = false; }
-        else { assert!(v_ok!($ts.register(&mut $poll, &mut $fac)), "C18.tr.register_ok"); $parent = true; }
+        else { assert!(v_ok!($ts.register(&mut $poll, &mut $fac)), "C18.tr.register_ok"); $parent = true; $disabled = false; }
     } else {
         if $parent { assert!(v_ok!($ts.reregister(&mut $poll, &mut $fac)), "C18.tr.reregister_ok"); }
     }
@@ -86,6 +86,9 @@ macro_rules! ts_step { ($ts:ident, $poll:ident, $fac:ident, $tok:ident, $parent:
         assert!(BAD != 5, "C18.tr.child_dropped_while_registered");
         assert!(LIVE_REG <= 1, "C18.tr.at_most_one_child_registered");
         if !$parent { assert!(LIVE_REG == 0, "C18.tr.no_child_registered_under_unregistered_parent"); }
+        // C07 at the child's level: once the Disable a child asked for has been applied (no re-registration owed any more),
+        // the child stays out of the poller until the PARENT is registered anew (enable) or the child is replaced
+        if $disabled && !$dirty { assert!(LIVE_REG == 0, "C07.tr.disabled_child_registered_again_without_enable"); }
     }
 }} }
 
@@ -101,9 +104,9 @@ fn $name() {
     let mut next_id: u8 = 2;
     // insertion registers the parent
     assert!(v_ok!(ts.register(&mut poll, &mut fac)), "C18.tr.register_ok");
-    let mut parent = true; let mut dirty = false; let mut second_change = false;
+    let mut parent = true; let mut dirty = false; let mut second_change = false; let mut disabled = false;
     unsafe { assert!(LIVE_REG == cur.min(1) && BAD == 0, "C18.tr.initial_child_registered_with_parent"); }
-    $( let _ = $s; ts_step!(ts, poll, fac, tok, parent, dirty, next_id, cur, second_change); )*
+    $( let _ = $s; ts_step!(ts, poll, fac, tok, parent, dirty, next_id, cur, second_change, disabled); )*
     kani::cover!(parent && !dirty);
     std::mem::forget(ts); std::mem::forget(poll);
 }
@@ -170,8 +173,9 @@ fn $name() {
     let mut dirty = owes_reregistration(&ts, parent) || kani::any::<bool>();
     let mut next_id: u8 = 3;
     let mut second_change = false;
+    let mut disabled = matches!(&ts.state, TransientSourceState::Disable(_) | TransientSourceState::Disabled(_));
     let mut cur: u8 = ts.map(|c| c.id).unwrap_or(0);
-    ts_step!(ts, poll, fac, tok, parent, dirty, next_id, cur, second_change);
+    ts_step!(ts, poll, fac, tok, parent, dirty, next_id, cur, second_change, disabled);
     assert!(inv_ok(&ts, parent), "C18.ind.invariant_reestablished");
     if owes_reregistration(&ts, parent) { assert!(dirty, "C18.ind.pending_change_owes_reregistration"); }
     kani::cover!(parent);
